@@ -1,9 +1,13 @@
 package checks
 
 import (
+	"context"
 	"encoding/json"
 	"fmt"
+	"github.com/kercylan98/vivid"
+	"github.com/kercylan98/vivid/internal/actor"
 	"os"
+	"sync"
 
 	"github.com/kercylan98/vivid/verifharness/ctl"
 	"runtime"
@@ -90,4 +94,56 @@ func init() {
 		fmt.Printf("%+v\n", r)
 		return 0
 	}
+}
+
+func init() {
+	subcommands["debug-stoprace"] = func(args []string) int {
+		bad := 0
+		for it := 0; it < 200; it++ {
+			sys := actor.NewSystem(vivid.WithActorSystemContext(context.Background()), vivid.WithActorSystemLogger(silentLogger), vivid.WithActorSystemStopTimeout(2*time.Second))
+			if err := sys.Start(); err != nil {
+				fmt.Println(err)
+				return 2
+			}
+			stop := make(chan struct{})
+			var wg sync.WaitGroup
+			for g := 0; g < 4; g++ {
+				wg.Add(1)
+				go func() {
+					defer wg.Done()
+					for {
+						select {
+						case <-stop:
+							return
+						default:
+						}
+						_, _ = sys.ActorOf(vivid.ActorFN(func(ctx vivid.ActorContext) {}))
+					}
+				}()
+			}
+			time.Sleep(time.Duration(it%5) * time.Millisecond)
+			t0 := time.Now()
+			go func() { time.Sleep(time.Duration(it%4) * time.Millisecond); close(stop) }()
+			err := sys.Stop(2 * time.Second)
+			d := time.Since(t0)
+			wg.Wait()
+			time.Sleep(20 * time.Millisecond)
+			live := sys.VerifLiveActors()
+			if err != nil || len(live) > 0 || d > time.Second {
+				bad++
+				if bad <= 5 {
+					fmt.Printf("iteration %d: Stop err=%v after %v, actors still registered: %d %v\n", it, err, d, len(live), head2(live))
+				}
+			}
+		}
+		fmt.Println("bad iterations:", bad, "of 200")
+		return 0
+	}
+}
+
+func head2(s []string) []string {
+	if len(s) > 4 {
+		return s[:4]
+	}
+	return s
 }
